@@ -170,7 +170,7 @@ func c19Run(r *Run, reg string, depth, shard, shards int) {
 				return false
 			}
 			r.Distinct(fmt.Sprintf("%s|%s|%s", c19Content(m), a.Desc, o.Class()))
-			if ExpMismatch(p, o) {
+			if ExpMismatch(p, o) && c19Enforced(p) {
 				fp := "C19 " + p.Kind + " accepted (duplicate / missing entry / wrong submitter)"
 				if p.Exp == MustSucceed {
 					fp = "C19 " + p.Kind + " rejected although the entry can be added/removed"
@@ -180,6 +180,9 @@ func c19Run(r *Run, reg string, depth, shard, shards int) {
 			next := m
 			if o.OK {
 				next = p.Next
+				if p.Exp == MustFail && !c19Enforced(p) {
+					next = ViewOf(w) // outside what C19 states (e.g. threshold rules): follow the implementation
+				}
 			}
 			post.Model = next
 			if errs := CheckQueries(w, next, u); len(errs) > 0 {
@@ -234,4 +237,33 @@ func joinMax(xs []string, n int) string {
 		s += x
 	}
 	return s
+}
+
+
+// c19Enforced: C19 speaks about registries -- adding creates an entry, duplicates and
+// removals of missing entries are rejected. Whether a threshold update, a disable that
+// would break the quorum, or a user flow is accepted is the subject of other properties.
+func c19Enforced(p Pred) bool {
+	switch p.Kind {
+	case "LinkTokenPair", "UnlinkTokenPair", "AddRemoteTokenMessenger", "RemoveRemoteTokenMessenger", "EnableAttester", "SetMaxBurnAmountPerMessage":
+		return true
+	case "DisableAttester":
+		if p.Exp == MustSucceed {
+			return true
+		}
+		for _, c := range p.Conds {
+			if !c.OK && (c.Name == "attester is enabled" || c.Name == "submitter holds the role") {
+				return true
+			}
+		}
+		return false
+	case "ReceiveMessage":
+		for _, c := range p.Conds {
+			if !c.OK && c.Name == "nonce unused" {
+				return true
+			}
+		}
+		return false
+	}
+	return false
 }
